@@ -133,7 +133,7 @@ fn true_distance(topo: &str, round: usize) -> Option<u8> {
 }
 
 fn real_menu(t: &Task) -> Menu {
-    if t.topo == "L3-flaky" {
+    if t.topo == "L3-flaky" || t.topo == "silent-all-flaky" {
         // socket failures the cell survives: Failed and Skipped slots in real histories
         return Menu { delay: true, loss: true, ..crate::c09::transient_faults(&t.cell) };
     }
@@ -311,7 +311,7 @@ pub fn run(args: &Args) -> i32 {
     // real executions: stable, ECMP, silent target; first_ttl 1..3
     let mut rtasks: Vec<Task> = vec![];
     for cell in drive::base_cells() {
-        for topo in ["L1", "L2", "L3", "L4", "ecmp", "silent-target", "silent-mid", "silent-all", "L3-flaky"] {
+        for topo in ["L1", "L2", "L3", "L4", "ecmp", "silent-target", "silent-mid", "silent-all", "L3-flaky", "silent-all-flaky"] {
             for first_ttl in [1u8, 2, 3] {
                 let p = TraceParams { first_ttl, rounds: 3, packet_size: if cell.v6 { 96 } else { 84 }, ..TraceParams::default() };
                 rtasks.push(Task { cell, topo, params: p, bound: if tier == Tier::Thorough { 3 } else { 2 } });
@@ -374,7 +374,7 @@ pub fn run(args: &Args) -> i32 {
     rep.set("synthetic_depth_completed", json!(depth));
     rep.set("real_executions", json!(rstats.executions));
     rep.set("real_rounds_checked", json!(rrounds));
-    rep.set("rule", json!(format!("synthetic: 14 round shapes (path lengths 1..4, answering/silent target, unknown hops, failed and re-issued probes; largest_ttl by the strategy's contract) x first_ttl {{1,2,5}}: ALL histories to depth {depth} on the real State, de-duplicated on (depth, getter results); after every round: hops() empty iff no path length, else consecutive ttl lowest-probed..=max path length with each probed hop carrying its ttl, target_hop/is_target/is_in_round at the latest round's length, no query panics (also on the empty state). real: 14 cells x 9 topologies (one with the socket failures the cell survives offered at every send/bind/connect) x first_ttl {{1,2,3}} x 3 rounds + 14 cells x 4 topologies x (first_ttl,max_ttl) in {{(1,1),(1,2),(2,2),(1,3),(2,3)}} (max_ttl short of the target), path length <= highest ttl probed in the round, all executions with <= 2 (3 thorough) deviations, + changing paths: 14 cells x {{2->3, 2->4, 4->2, 4->3, 3->2 hops}} x first_ttl {{1,2}}, 5 rounds with the route changing after round 1 (<= 1 deviation, 2 thorough), same oracle on the snapshot at every publish + path length = true distance in every round in which the target's reply to the probe at its true distance was received (and, in the deviation-free execution, in every round at whose start the path had been unchanged for a whole round), 0 when nothing answers")));
+    rep.set("rule", json!(format!("synthetic: 14 round shapes (path lengths 1..4, answering/silent target, unknown hops, failed and re-issued probes; largest_ttl by the strategy's contract) x first_ttl {{1,2,5}}: ALL histories to depth {depth} on the real State, de-duplicated on (depth, getter results); after every round: hops() empty iff no path length, else consecutive ttl lowest-probed..=max path length with each probed hop carrying its ttl, target_hop/is_target/is_in_round at the latest round's length, no query panics (also on the empty state). real: 14 cells x 10 topologies (two - an answering and an all-silent path - with the socket failures the cell survives offered at every send/bind/connect) x first_ttl {{1,2,3}} x 3 rounds + 14 cells x 4 topologies x (first_ttl,max_ttl) in {{(1,1),(1,2),(2,2),(1,3),(2,3)}} (max_ttl short of the target), path length <= highest ttl probed in the round, all executions with <= 2 (3 thorough) deviations, + changing paths: 14 cells x {{2->3, 2->4, 4->2, 4->3, 3->2 hops}} x first_ttl {{1,2}}, 5 rounds with the route changing after round 1 (<= 1 deviation, 2 thorough), same oracle on the snapshot at every publish + path length = true distance in every round in which the target's reply to the probe at its true distance was received (and, in the deviation-free execution, in every round at whose start the path had been unchanged for a whole round), 0 when nothing answers")));
     for s in samples {
         rep.sample(s);
     }
